@@ -91,6 +91,8 @@ Lemma to_bytes_be_eq w z : to_bytes_be w z = if in_range w z then Ok (be w z) el
 Proof. reflexivity. Qed.
 
 (* x.to_bytes(..) raises OverflowError outside the field width: pack ties are stated with the exact range condition *)
+(* `if self.entry_handle: self.entry_handle[0].to_bytes(4, ..)` *)
+Definition handle_ok (h : option (Z * bytes)) : bool := match h with Some (a, _) => in_range 4 a | None => true end.
 Definition chk (b : bool) (x : bytes) : res (pv obj) := if b then Ok (VB x) else Raise OverflowError.
 
 Lemma len_map {A B} (f : A -> B) l : len (map f l) = len l.
